@@ -31,6 +31,7 @@ const (
 	LLocal
 	LSub
 	LArr
+	LFieldOf // field Idx (decimal) of the struct value stored at Parent
 )
 
 // Loc is a symbolic memory location (the target of a pointer).
